@@ -617,7 +617,7 @@ func c16FlagReleasedOnEveryExit(p *Prog, r *Report, rule string) {
 	}
 	for _, gb := range p.goBodies(rs) {
 		lit := gb.Pos
-		f := p.FlatInl(gb.FI)
+		f := p.FlatInl(gb.FI).SplitBools()
 		rel := f.Match(func(n *GNode) bool {
 			found := false
 			ast.Inspect(n.Ast, func(x ast.Node) bool {
